@@ -29,6 +29,11 @@ class Poison:
     def __repr__(self): return '<uninit>'
 POISON = Poison()
 class ModelViolation(Exception): pass
+class ModelLimit(Exception):
+    """the mathematical value of a compound C expression left the promoted C type: the model refuses to guess what C does"""
+def CHK(v, w):
+    if isinstance(v, int) and not (-(1 << (w - 1)) <= v < (1 << w)): raise ModelLimit('intermediate value %d exceeds %d-bit C arithmetic' % (v, w))
+    return v
 
 def conv(ct, v, from_py):
     if isinstance(v, Poison): raise ModelViolation('read of uninitialised memory')
@@ -109,7 +114,7 @@ def CAST(ct, v):
 def CDIV(a, b):
     q = abs(a)//abs(b); return q if (a >= 0) == (b >= 0) else -q
 def frexp(x, ref): m, e = math.frexp(x); SETC(ref.fr, ref.name, e); return m
-RT = dict(POISON=POISON, CArray=CArray, Off=Off, Ref=Ref, Frame=Frame, SETC=SETC, SETP=SETP, CAST=CAST, CDIV=CDIV,
+RT = dict(CHK=CHK, ModelLimit=ModelLimit, ModelViolation=ModelViolation, POISON=POISON, CArray=CArray, Off=Off, Ref=Ref, Frame=Frame, SETC=SETC, SETP=SETP, CAST=CAST, CDIV=CDIV,
           frexp=frexp, ldexp=math.ldexp, PyMem_Malloc=lambda n: n, PyMem_Free=lambda p: None,
           memset=lambda arr, v, n: arr.a.__setitem__(slice(0, n // csize(arr.ct)), [v]*(n // csize(arr.ct))), sizeof=csize,
           OFF=OFF, Ptr=Ptr, StructVal=StructVal, _PyDict_NewPresized=lambda n: {})
@@ -258,7 +263,16 @@ class T(ast.NodeTransformer):
         n = self.generic_visit(n)
         if isinstance(n.op, ast.Div) and a == 'int' and b == 'int':
             return ast.copy_location(ast.Call(ast.Name('CDIV', ast.Load()), [n.left, n.right], []), n)
+        if a == 'int' and b == 'int' and isinstance(n.op, (ast.LShift, ast.Add, ast.Mult, ast.Sub)):
+            w = 64 if self.wide(n) else 32
+            return ast.copy_location(ast.Call(ast.Name('CHK', ast.Load()), [n, ast.Constant(w)], []), n)
         return n
+    def wide(self, n):
+        for x in ast.walk(n):
+            nm = x.attr if isinstance(x, ast.Attribute) else x.id if isinstance(x, ast.Name) else None
+            if nm and 'long long' in str(self.types.get(nm, '')): return True
+            if isinstance(x, ast.Constant) and isinstance(x.value, int) and x.value >= (1 << 31): return True
+        return False
     def visit_For(self, n):
         if isinstance(n.target, ast.Name) and n.target.id in self.types:
             name = n.target.id; n.target = ast.Name('_it_'+name, ast.Store())
